@@ -16,26 +16,27 @@ import (
 )
 
 type Engine struct {
-	repo       string
-	modPath    string
-	fset       *token.FileSet
-	prog       *ssa.Program
-	pkgs       []*packages.Package
-	pkgDir     map[string]string
-	contracts  map[string]*Contract
-	pures      map[string]*PureFn
-	lemmas     []*Lemma
-	axioms     []string
-	ufs        map[string]*UF
-	funcIDs    map[*ssa.Function]int
-	typeTags   map[string]int
-	frames     map[*ssa.Function][]frameEntry
-	frameBusy  map[*ssa.Function]bool
-	constGlob  map[*ssa.Global]*globalInfo
-	globScan   bool
-	allFuncs   map[*ssa.Function]bool
-	config     string
-	kindFilter *regexp.Regexp
+	repo            string
+	modPath         string
+	fset            *token.FileSet
+	prog            *ssa.Program
+	pkgs            []*packages.Package
+	pkgDir          map[string]string
+	contracts       map[string]*Contract
+	pures           map[string]*PureFn
+	lemmas          []*Lemma
+	axioms          []string
+	ufs             map[string]*UF
+	funcIDs         map[*ssa.Function]int
+	typeTags        map[string]int
+	frames          map[*ssa.Function][]frameEntry
+	frameBusy       map[*ssa.Function]bool
+	constGlob       map[*ssa.Global]*globalInfo
+	globScan        bool
+	allFuncs        map[*ssa.Function]bool
+	config          string
+	orphanContracts []string
+	kindFilter      *regexp.Regexp
 }
 
 type globalInfo struct {
@@ -112,11 +113,23 @@ func newEngine(repo string, config string, patterns []string) (*Engine, error) {
 	return e, nil
 }
 
+var typeArgsRe = regexp.MustCompile(`\[[^\[\]]*\]`)
+
+// fnKey: the contract key of a function: the name of its generic origin with type-parameter lists removed
+// ("(*pkg.PrivateKey[K]).UnmarshalBinary" -> "(*pkg.PrivateKey).UnmarshalBinary").
 func (e *Engine) fnKey(f *ssa.Function) string {
 	if o := f.Origin(); o != nil {
 		f = o
 	}
-	return f.String()
+	s := f.String()
+	for strings.Contains(s, "[") {
+		n := typeArgsRe.ReplaceAllString(s, "")
+		if n == s {
+			break
+		}
+		s = n
+	}
+	return s
 }
 
 func (e *Engine) funcID(f *ssa.Function) int {
